@@ -312,7 +312,7 @@ Qed.
    or not PreferDualStack on dual-stack cluster IPs), status already in the
    normalised order, annotation naming the owning pool: convergeBalancer returns
    exactly the same status and annotation - nothing to write *)
-Theorem converged_fixpoint a s o k v ok a' :
+Theorem converged_fixpoint_gen a s o k v ok a' :
   o_lb o = true -> by_name (s_pools a) <> [] -> o_cluster_ok o = true ->
   (is_require (r_pol (o_req o)) && negb (is_dual (r_fam (o_req o)))) = false ->
   o_status o <> [] ->
@@ -321,7 +321,7 @@ Theorem converged_fixpoint a s o k v ok a' :
   (forall p, o_want_pool o = Some p -> pool_of a' s = Some p) ->
   (o_want o = WNone \/ exists d, o_want o = WIps d /\ equal_ips rank (o_status o) d = true) ->
   additional_applies (o_req o) (o_status o) = false ->
-  sort2 rank (o_status o) = o_status o ->
+  (o_want o = WNone \/ sort2 rank (o_status o) = o_status o) ->
   o_annot o = pool_of a' s ->
   converge rank a s o k = CR v ok ->
   ok = true /\ cv_status v = o_status o /\ cv_annot v = o_annot o /\ cv_mem v = a'.
@@ -342,7 +342,8 @@ Proof.
               | WIps d => if equal_ips rank (x :: l) d then inl (c2, sort2 rank (x :: l)) else inl (clear c2 s, [])
               | WInvalid => inr c2
               end = inl (c2, x :: l)).
-    { destruct Hwant as [->|[d [-> Heq]]]; [reflexivity|]. rewrite Heq, Hsorted. reflexivity. }
+    { destruct Hwant as [->|[d [Hd Heq]]]; [reflexivity|]. rewrite Hd.
+      destruct Hsorted as [Hn|Hsorted]; [congruence|]. rewrite Heq, Hsorted. reflexivity. }
     destruct (o_want_pool o) as [p|] eqn:Ep.
     - cbn [cv_mem]. rewrite (Hwp p eq_refl). cbn [opt_pool_eqb]. rewrite N.eqb_refl. exact Hfin.
     - exact Hfin. }
@@ -355,6 +356,24 @@ Proof.
   rewrite ED. unfold stageE. destruct (o_status o) as [|y l] eqn:Es; [congruence|].
   destruct (assigned_pool_exists _ _ _ _ _ _ Has) as (pn & q & Hpo & Hfp).
   cbn [cv_mem c2]. rewrite Hpo, Hfp. intros [= <- <-]. cbn. repeat split; congruence.
+Qed.
+
+Theorem converged_fixpoint a s o k v ok a' :
+  o_lb o = true -> by_name (s_pools a) <> [] -> o_cluster_ok o = true ->
+  (is_require (r_pol (o_req o)) && negb (is_dual (r_fam (o_req o)))) = false ->
+  o_status o <> [] ->
+  family_changed (alloc_fam (o_status o)) (r_fam (o_req o)) (r_pol (o_req o)) = false ->
+  assign a s (o_req o) (o_status o) = (a', ROk (o_status o)) ->
+  (forall p, o_want_pool o = Some p -> pool_of a' s = Some p) ->
+  (o_want o = WNone \/ exists d, o_want o = WIps d /\ equal_ips rank (o_status o) d = true) ->
+  additional_applies (o_req o) (o_status o) = false ->
+  sort2 rank (o_status o) = o_status o ->
+  o_annot o = pool_of a' s ->
+  converge rank a s o k = CR v ok ->
+  ok = true /\ cv_status v = o_status o /\ cv_annot v = o_annot o /\ cv_mem v = a'.
+Proof.
+  intros Hlb Hpools Hcl Hreq Hst Hfam Has Hwp Hwant Hnogain Hsorted Hannot.
+  apply converged_fixpoint_gen; try assumption. right. exact Hsorted.
 Qed.
 
 (* so SetBalancer on such a Service attempts no status write and leaves the
